@@ -25,6 +25,13 @@ pub struct ScriptCase {
     /// when the script starts) and the first search of the script is made deep enough (depth 6) to outlast it
     #[serde(default)]
     pub timed_history: bool,
+    /// the third run searches the script's own positions (one ply deeper) before the reset instead of only an
+    /// unrelated history, so that anything surviving the reset concerns exactly the positions searched afterwards
+    #[serde(default)]
+    pub same_history: bool,
+    /// additional `ucinewgame` commands sent before the final one (counters that wrap: 255, 256, 257, 65536 …)
+    #[serde(default)]
+    pub resets: u32,
 }
 
 pub struct C19;
@@ -89,7 +96,7 @@ impl Prop for C19 {
     }
 
     fn rule(&self) -> String {
-        "Cases: a script of 1-4 (`position fen … moves …`, `go depth 1-5`, `wait`) steps on generated positions, run three ways against the real binary: (A) fresh process; (B) fresh process under a generated perturbation - `nice -n 15`, ASLR disabled (`setarch -R`), 0-4 kB of environment padding (moves stack and heap layout), pinned to one CPU (`taskset`), schedule-point delays 0/20/100 ms, the process frozen for 3.4 s in the middle of the first search (SIGSTOP/SIGCONT: wall-clock time passes, the search does not), while up to 7 sibling shards load the machine; (C) a process that first searches a generated unrelated history (one time in five ending with `go depth 1 movetime 60`, whose timer is still pending while the script's first search, then raised to depth 6, runs), then `ucinewgame`, then the script. Oracle: the three transcripts (every `info` line and `bestmove`) are byte-identical. Four fixed DEEP scripts (depth 7-9, tables of 10^5 entries and more) are run the same three ways in every tier. evaluations = script runs compared (3 per case). Non-trivial script: contains a search of depth >= 3 on a root with at least two legal moves; distinct by script.".into()
+        "Cases: a script of 1-4 (`position fen … moves …`, `go depth 1-5`, `wait`) steps on generated positions, run three ways against the real binary: (A) fresh process; (B) fresh process under a generated perturbation - `nice -n 15`, ASLR disabled (`setarch -R`), 0-4 kB of environment padding (moves stack and heap layout), pinned to one CPU (`taskset`), schedule-point delays 0/20/100 ms, the process frozen for 3.4 s in the middle of the first search (SIGSTOP/SIGCONT: wall-clock time passes, the search does not), while up to 7 sibling shards load the machine; (C) a process that first searches a generated unrelated history (one time in five ending with `go depth 1 movetime 60`, whose timer is still pending while the script's first search, then raised to depth 6, runs), then `ucinewgame`, then the script; two times in five the history also searches the script's own positions one ply deeper, and two times in seven the reset is preceded by 1-65537 further `ucinewgame` commands (values around 128, 256, 512, 65536, where a wrapping generation counter would bring entries back to life). Oracle: the three transcripts (every `info` line and `bestmove`) are byte-identical. Four fixed DEEP scripts (depth 7-9, tables of 10^5 entries and more) are run the same three ways in every tier. evaluations = script runs compared (3 per case). Non-trivial script: contains a search of depth >= 3 on a root with at least two legal moves; distinct by script.".into()
     }
 
     fn assumptions(&self) -> Vec<String> {
@@ -118,8 +125,9 @@ impl Prop for C19 {
 
     fn strategy(&self, _ctx: &Ctx) -> BoxedStrategy<ScriptCase> {
         let search = || (walk_strategy(false), prop_oneof![1 => 1u8..3, 3 => 3u8..5, 1 => Just(5u8)]);
-        (vec(search(), 1..5), vec(search(), 1..4), prop_oneof![9 => 0u8..16, 1 => 16u8..32], 0u16..4096, vec((0u8..9, 0u8..3), 0..4), prop::bool::weighted(0.2))
-            .prop_map(|(searches, history, perturb, pad, sched, timed_history)| ScriptCase { searches, history, perturb, pad, sched, timed_history })
+        let resets = prop_oneof![5 => Just(0u32), 2 => prop::sample::select(vec![1u32, 2, 3, 127, 128, 255, 256, 257, 511, 512, 1024, 65535, 65536, 65537])];
+        (vec(search(), 1..5), vec(search(), 1..4), prop_oneof![9 => 0u8..16, 1 => 16u8..32], 0u16..4096, vec((0u8..9, 0u8..3), 0..4), prop::bool::weighted(0.2), prop::bool::weighted(0.4), resets)
+            .prop_map(|(searches, history, perturb, pad, sched, timed_history, same_history, resets)| ScriptCase { searches, history, perturb, pad, sched, timed_history, same_history, resets })
             .boxed()
     }
 
@@ -138,6 +146,8 @@ impl Prop for C19 {
                 pad: 3000,
                 sched: vec![],
                 timed_history: false,
+                same_history: i % 2 == 0,
+                resets: [256, 0, 65536, 0][i],
             };
             ctx.note_inflight("C19", &case);
             ev.class("deep_scripts");
@@ -217,6 +227,21 @@ impl C19 {
             ev.inconclusive("history run did not finish within the time limit");
             return Ok(());
         }
+        if case.same_history {
+            // the script's own positions, one ply deeper (capped), so that deeper entries for them exist before the reset
+            let deeper: Vec<(String, String)> = script
+                .iter()
+                .map(|(p, g)| {
+                    let d: u8 = g.rsplit(' ').next().and_then(|x| x.parse().ok()).unwrap_or(1);
+                    (p.clone(), format!("go depth {}", (d + 1).min(cap.max(6))))
+                })
+                .collect();
+            if transcript(&mut c, &deeper).is_err() {
+                ev.inconclusive("history run did not finish within the time limit");
+                return Ok(());
+            }
+            ev.class("histories_that_search_the_scripts_own_positions_deeper");
+        }
         if case.timed_history {
             c.send("position startpos");
             c.send("go depth 1 movetime 60");
@@ -227,6 +252,19 @@ impl C19 {
                 return Ok(());
             }
             ev.class("histories_ending_with_a_pending_timer");
+        }
+        if case.resets > 0 {
+            for k in 0..case.resets {
+                c.send("ucinewgame");
+                if k % 4096 == 4095 {
+                    c.send("isready");
+                    if c.read_until(|l| uci::readyok(l), 30_000).is_none() {
+                        ev.inconclusive("history run did not finish within the time limit");
+                        return Ok(());
+                    }
+                }
+            }
+            ev.class(if case.resets >= 255 { "histories_with_255_or_more_resets" } else { "histories_with_several_resets" });
         }
         c.send("ucinewgame");
         let tc = match transcript(&mut c, &script) {
